@@ -82,7 +82,7 @@ func init() {
 		PID: "C06", PLevel: "exploration",
 		RuleText: "scenario = HEALTHY pipeline (no rejections, no failures, responsive plugins and store), both engines, up to 3x3 with processors (filters, splits, parallel workers), stop-and-wait requested when the event log reaches a PRNG-chosen length (start-up, mid-read, batches in flight, acks pending behind destination latency, debounce timer armed, idle), optionally restarted and stopped again. At every StopAndWait that returns nil the state at that instant is judged: every written record has its outcome and its source ack before source teardown, acks form a prefix, stored position == last ack, every opened plugin torn down as often as opened, no plugin activity after the return. Non-trivial: a successful StopAndWait was judged with >3 obligations; distinct = distinct (engine, topology, in-flight class at the stop instant, number of stops).",
 		Assume:   []string{"'the stop always completes' is only observed as bounded progress: a case exceeding its 120 s watchdog twice (second time alone) is reported as a wedge", "if the engine logged one of its deliberate bounded-wait fallbacks (10 s teardown flush / 30 s stop-and-wait) the drained-state clauses are inconclusive, not violated"},
-		Quick:    320, Thorough: 12000, HangIsViol: true,
+		Quick:    320, Thorough: 3200, HangIsViol: true,
 		PointBias: []string{"connector.persister.before-commit", "connector.persister.after-commit", "connector.persister.callback", "connector.source.ack", "lifecycle.stop.checked", "lifecycle.recover.backoff-elapsed", "lifecycle.run.ended"},
 		Anchors:   []string{"pkg/lifecycle/stream/source.go", "pkg/lifecycle/stream/destination.go", "pkg/lifecycle/stream/destination_acker.go", "pkg/lifecycle/stream/dlq.go", "pkg/lifecycle/stream/base.go", "pkg/lifecycle-poc/funnel/worker.go", "pkg/connector/source.go", "pkg/connector/destination.go", "pkg/connector/persister.go"},
 		Gen:       gen, Judge: judge,
